@@ -5,6 +5,7 @@ import (
 	"fmt"
 
 	"github.com/hashicorp/hcl-lang/lang"
+	"github.com/hashicorp/hcl-lang/reference"
 	"github.com/hashicorp/hcl-lang/schema"
 	"github.com/hashicorp/hcl/v2"
 	"github.com/zclconf/go-cty/cty"
@@ -152,7 +153,7 @@ func VerifP_C03_DeterminismAtPos(i int) {
 // address (a module call copied into a second file with another source), a third file writes the
 // reference; collected origins, targets and the lookups must not depend on the order in which the
 // files of the path are visited.
-func VerifH_C03_Determinism_MultiFile() {
+func VerifH_C03C10C11_Determinism_MultiFile() {
 	str := schema.LiteralType{Type: cty.String}
 	addr := func(steps ...string) lang.Address {
 		a := lang.Address{lang.RootStep{Name: steps[0]}}
@@ -182,6 +183,8 @@ func VerifH_C03_Determinism_MultiFile() {
 		"a.tf": verifParseHCL("module \"m\" {\n  source = \"./m\"\n}\n", "a.tf"),
 		"b.tf": verifParseHCL("module \"m\" {\n  source = \"./n\"\n}\n", "b.tf"),
 		"c.tf": verifParseHCL("use = module.m.out\n", "c.tf"),
+		// a file that sorts before the declaring ones and refers to the same output
+		"0.tf": verifParseHCL("\nuse = module.m.out\n", "0.tf"),
 	}
 	d := verifDecoder(bs, files)
 	o0, _ := d.CollectReferenceOrigins()
@@ -194,6 +197,20 @@ func VerifH_C03_Determinism_MultiFile() {
 		verifAssert(verifDeepEqual(o1, o0), "C03:origins-independent-of-file-visit-order")
 		verifAssert(verifDeepEqual(t1, t0), "C03:targets-independent-of-file-visit-order")
 	}
-	verifAssert(len(o0) == 3, "C10:one-local-and-two-implied-origins")
+	// each written reference is one local origin and, by the two module blocks, two path origins
+	// - whatever the names of the files it and the module blocks are written in
+	verifAssert(len(o0) == 6, "C10/C11:one-local-and-two-implied-origins-per-written-reference")
+	nPath := map[string]int{}
+	for _, o := range o0 {
+		if po, ok := o.(reference.PathOrigin); ok {
+			nPath[po.OriginRange().Filename]++
+			verifAssert(po.TargetPath.Path == "mods/one" || po.TargetPath.Path == "mods/two", "C11:implied-origin-points-into-the-implied-path")
+		}
+	}
+	verifAssert(nPath["c.tf"] == 2 && nPath["0.tf"] == 2, "C10/C11:implied-origins-for-references-in-every-file")
+	for k := 1; k < len(o0); k++ {
+		a, b := o0[k-1].OriginRange(), o0[k].OriginRange()
+		verifAssert(a.Filename < b.Filename || (a.Filename == b.Filename && a.Start.Byte <= b.Start.Byte), "C10:origins-ordered-by-file-and-position")
+	}
 	verifReach("end")
 }
